@@ -87,6 +87,7 @@ package runner
 //@   ensures (forall k *executor.Job :: old(compiled[k]) ==> compiled[k]) && compiledClosed()
 //@   ensures !exitOK(result#1)
 //@   callsite RenderString
+//@     requires #C09.dir-precedence arg0 == (dir != "" ? dir : executionCtx.Dir)
 //@     ghost compiled[j] = true
 
 // ghost trace of CompileCommand calls made by CompileTask: call i compiled command text ccCmd[i]
@@ -136,6 +137,7 @@ package runner
 //@     invariant #started rangeindex == -1 && ccN == old(ccN) ==> rangeindex#1 == 0 || len(t.Commands) == 0
 //@     invariant #no-commands len(t.Commands) == 0 ==> ccN == old(ccN)
 //@   callsite CompileCommand
+//@     requires #C09.variation-over-env forall k string :: (cdom[arg7][k] <==> (cdom[env][k] || (k in variant))) && ((k in variant) ==> cval[arg7][k] == boxstr(variant[k])) && (!(k in variant) && cdom[env][k] ==> cval[arg7][k] == cval[env][k])
 //@     ghost ccV[ccN] = rangeindex
 //@     ghost ccC[ccN] = rangeindex#2
 //@     ghost ccCmd[ccN] = command
@@ -201,12 +203,16 @@ package runner
 //@   callsite After
 //@     requires #C14.after-once calls(After) == 0 && calls(contextForTask) == 1
 //@   callsite checkTaskCondition
+//@     requires #C09.env-chain forall k string :: (cdom[env][k] <==> (cdom[r.env][k] || cdom[execContext.Env][k] || k == "TASK_NAME" || cdom[t.Env][k])) && (cdom[t.Env][k] ==> cval[env][k] == cval[t.Env][k]) && (!cdom[t.Env][k] && k == "TASK_NAME" ==> cval[env][k] == boxstr(t.Name)) && (!cdom[t.Env][k] && k != "TASK_NAME" && cdom[execContext.Env][k] ==> cval[env][k] == cval[execContext.Env][k]) && (!cdom[t.Env][k] && k != "TASK_NAME" && !cdom[execContext.Env][k] && cdom[r.env][k] ==> cval[env][k] == cval[r.env][k])
+//@     requires #C10.vars-chain forall k string :: (cdom[vars][k] <==> (cdom[r.variables][k] || cdom[t.Variables][k])) && (cdom[t.Variables][k] ==> cval[vars][k] == cval[t.Variables][k]) && (!cdom[t.Variables][k] && cdom[r.variables][k] ==> cval[vars][k] == cval[r.variables][k])
 //@     ghost gCondMet = result
 //@     ghost gCondErr = result#1
 //@   callsite before
+//@     requires #C09.same-env arg3 == env && arg4 == vars && arg2 == execContext
 //@     requires #C06.condition-first calls(checkTaskCondition) == 1 && gCondMet && gCondErr == nil && calls(before) == 0
 //@     ghost gBeforeErr = result
 //@   callsite CompileTask
+//@     requires #C09.same-env arg5 == env && arg6 == vars && arg1 == execContext
 //@     requires #C06.before-first calls(before) == 1 && gBeforeErr == nil
 //@     ghost gCompileErr = result#1
 //@   callsite Start
@@ -215,6 +221,7 @@ package runner
 //@     requires #C06.commands-after-before calls(before) == 1 && gBeforeErr == nil && calls(CompileTask) == 1 && gCompileErr == nil && calls(execute) == 0
 //@     ghost gExecErr = result
 //@   callsite after
+//@     requires #C09.same-env arg3 == env && arg4 == vars && arg2 == execContext
 //@     requires #C06.after-only-after-success calls(execute) == 1 && gExecErr == nil && calls(after) == 0
 
 //@ func NewExecutionContext
